@@ -314,6 +314,21 @@ def oracle(case, ctx):
                     ok = False
                     break
                 exp.append((int(twin.cutoff), p))
+            if op.get("interrupt_after") and ok and len(exp) > op["interrupt_after"]:
+                # the run is cut short (the source of windows fails after some of them): the
+                # call raises, and the forecaster's own cutoff is where it was before the call
+                probe = sut(copy.deepcopy, f)
+                fcv = _interrupted(cv, op["interrupt_after"])
+                gi = sut(probe.update_predict, yf.copy(), fcv, None, op["update_params"])
+                ctx.label("update_predict_interrupted")
+                if not (isinstance(gi, Raised) and gi.type == "InjectedFault"):
+                    discs.append(D("interrupted_update_predict_returns", "%s: %r" % (desc, gi)))
+                    break
+                cc = sut(lambda: probe.cutoff)
+                if isinstance(cc, Raised) or int(cc) != c:
+                    discs.append(D("cutoff_not_restored_after_interrupted_update_predict", "%s: run interrupted after %d windows: cutoff %r was %d" % (
+                        desc, op["interrupt_after"], cc, c)))
+                    break
             got = sut(f.update_predict, yf.copy(), cv, None, op["update_params"])
             up_seen = True
             if not ok:
@@ -338,6 +353,25 @@ def oracle(case, ctx):
         ctx.label("update_predict")
     ctx.label("updates=%s" % (n_updates if n_updates < 3 else "3+"))
     return discs
+
+
+class InjectedFault(RuntimeError):
+    pass
+
+
+def _interrupted(cv, k):
+    """The same splitter whose stream of windows fails after k windows."""
+    fcv = copy.deepcopy(cv)
+    inner = fcv.split
+
+    def split(y):
+        for i, w in enumerate(inner(y)):
+            if i == k:
+                raise InjectedFault("source of windows failed after %d windows" % k)
+            yield w
+
+    fcv.split = split
+    return fcv
 
 
 def check_forecast(p, model, steps, desc, what, exp):
@@ -483,7 +517,8 @@ def cases(draw):
             m = draw(st.integers(wl + steps[-1], wl + steps[-1] + 6))
             ops.append({"op": "update_predict", "m": m, "cv": draw(st.sampled_from(["sliding", "expanding"])), "wl": wl,
                         "step": draw(st.integers(1, 3)), "sww": draw(st.booleans()),
-                        "update_params": draw(st.sampled_from([True, False])), "other_fh": draw(st.integers(0, 2)) == 0})
+                        "update_params": draw(st.sampled_from([True, False])), "other_fh": draw(st.integers(0, 2)) == 0,
+                        "interrupt_after": draw(st.sampled_from([0, 0, 1, 2, 3]))})
             # ... optionally followed by a predict and / or a second update_predict
             tail = draw(st.sampled_from(["", "p", "p", "u", "pu", "up"]))
             for ch in tail:
